@@ -1,9 +1,143 @@
 import ALV.Common.Json
+import ALV.Model.C10
+import ALV.Spec.C10
 namespace ALV.Driver.C10
-open ALV ALV.J
+open ALV ALV.J ALV.C10
 
-/-- stub: the C10 slice is not built yet -/
-def handle (entry : String) (_j : Json) : Except String Json :=
-  throw s!"C10: unknown entry {entry}"
+def optNat (j : Json) (k : String) : Except String (Option Nat) :=
+  match optField j k with
+  | none => pure none
+  | some v => do pure (some (← getNat v))
+
+def optRats (j : Json) (k : String) : Except String (Option (List Rat)) :=
+  match optField j k with
+  | none => pure none
+  | some v => do pure (some (← getList getRat v))
+
+def table (t : List (List Rat)) : Json := arr rats t
+
+/-- `(numerator, error)` or the predicted exception -/
+def filtJson : Except String (List Rat × Rat) → Json
+  | .ok (a, e) => Json.mkObj [("a", rats a), ("error", ratToJson e)]
+  | .error k => Json.mkObj [("err", Json.str k)]
+
+/-- residuals i = 1..p of the Yule–Walker equations, the error they assign, a_0 -/
+def ywJson (r a : List Rat) (p : Nat) : Json :=
+  Json.mkObj [("res", rats ((List.range p).map fun i => neResidual r a p (i + 1))),
+              ("err_eq", ratToJson (predError r a p)),
+              ("a0", ratToJson (coef a 0)), ("len", natToJson a.length)]
+
+def covJson (blk a : List Rat) (p : Nat) : Json :=
+  Json.mkObj [("res", rats ((List.range p).map fun i => covResidual blk a p (i + 1))),
+              ("err_eq", ratToJson (covResidual blk a p 0)),
+              ("energy", ratToJson (covEnergy a blk p)),
+              ("a0", ratToJson (coef a 0)), ("len", natToJson a.length)]
+
+/-- conditioning trace of the Levinson loop: for every pass m (until a zero divisor) the
+    numerator `⟨A, z^-m⟩`, the divisor `⟨B, B⟩` and the coefficients of `A` before the pass.
+    Only used by the harness to decide the float regime / skip ill-conditioned float cases. -/
+def levTrace (r : List Rat) : Nat → Nat → List Rat → List Json
+  | 0, _, _ => []
+  | fuel + 1, m, A =>
+    let B := revShift m A
+    let num := inner r A (delay m)
+    let den := inner r B B
+    let item := Json.mkObj [("num", ratToJson num), ("den", ratToJson den), ("A", rats A)]
+    if den = 0 then [item] else item :: levTrace r fuel (m + 1) (subScaled A (num / den) B)
+
+def unstableRat (k : Rat) : Bool := decide ((1 : Rat) ≤ k) || decide (k ≤ -1)
+
+/-- conditioning trace of the kcovar loop: `k`, `beta`, and all coefficients met -/
+def kcTrace (phi : List (List Rat)) (order : Nat) : List Json :=
+  (List.range order).filterMap fun n =>
+    match kcIter phi unstableRat n with
+    | .error _ => none
+    | .ok s =>
+      let bm := coef s.beta n
+      let num := innerM phi s.A (delay (n + 1))
+      some (Json.mkObj [("num", ratToJson num), ("beta", ratToJson bm),
+        ("A", rats s.A), ("B", arr rats s.B)])
+
+def handle (entry : String) (j : Json) : Except String Json := do
+  match entry with
+  | "acorr" =>
+    let blk ← getList getRat (← field j "blk")
+    let lag ← optNat j "max_lag"
+    let m := acorr blk lag
+    pure <| Json.mkObj [("model", rats m),
+      ("spec", rats ((List.range m.length).map (acorrAt blk)))]
+  | "lag_matrix" =>
+    let blk ← getList getRat (← field j "blk")
+    let lag ← optNat j "max_lag"
+    match lagMatrix blk lag with
+    | .error k => pure <| Json.mkObj [("model", Json.mkObj [("err", Json.str k)])]
+    | .ok t =>
+      let L := t.length - 1
+      pure <| Json.mkObj [("model", table t),
+        ("spec", table ((List.range t.length).map fun j => (List.range t.length).map fun i => lagAt blk L i j))]
+  | "toeplitz" =>
+    let v ← getList getRat (← field j "vect")
+    pure <| Json.mkObj [("model", table (toeplitz v)),
+      ("spec", table ((List.range v.length).map fun a => (List.range v.length).map fun b =>
+                        coef v (adiff a b)))]
+  | "levinson" =>
+    let r ← getList getRat (← field j "r")
+    let order ← optNat j "order"
+    let p := order.getD (r.length - 1)
+    let res := levinson r order
+    let implA ← optRats j "impl_a"
+    let specM := match res with
+      | .ok (a, _) => ywJson r a p
+      | .error _ => Json.null
+    let specI := match implA with
+      | some a => ywJson r a p
+      | none => Json.null
+    let r' := match order with
+      | none => r
+      | some q => zeroExt r q
+    pure <| Json.mkObj [("model", filtJson res), ("spec_model", specM), ("spec_impl", specI),
+      ("trace", Json.arr (levTrace r' p 1 [1]))]
+  | "kautocor" =>
+    let blk ← getList getRat (← field j "blk")
+    let order ← optNat j "order"
+    let r := acorr blk order
+    let p := order.getD (blk.length - 1)
+    let res := kautocor blk order
+    let implA ← optRats j "impl_a"
+    -- energies of a ± e_i/16 (i = 1..p): a minimiser is not improved by any of them
+    let bump (a : List Rat) (i : Nat) (d : Rat) : List Rat :=
+      (List.range (p + 1)).map fun j => coef a j + (if j = i then d else 0)
+    let one (a : List Rat) : Json := Json.mkObj [("yw", ywJson r a p), ("energy", ratToJson (energy a blk p)),
+      ("perturbed", rats ((List.range p).flatMap fun i =>
+        [energy (bump a (i + 1) (1/16)) blk p, energy (bump a (i + 1) (-1/16)) blk p]))]
+    let specM := match res with
+      | .ok (a, _) => one a
+      | .error _ => Json.null
+    let specI := match implA with
+      | some a => one a
+      | none => Json.null
+    let r' := match order with
+      | none => r
+      | some q => zeroExt r q
+    pure <| Json.mkObj [("model", filtJson res), ("r", rats r), ("spec_model", specM), ("spec_impl", specI),
+      ("trace", Json.arr (levTrace r' p 1 [1]))]
+  | "kcovar" =>
+    let blk ← getList getRat (← field j "blk")
+    let order ← optNat j "order"
+    let res := kcovar blk order
+    let p := order.getD (blk.length - 1)
+    let implA ← optRats j "impl_a"
+    let specM := match res with
+      | .ok (a, _) => covJson blk a p
+      | .error _ => Json.null
+    let specI := match implA with
+      | some a => covJson blk a p
+      | none => Json.null
+    let tr := match lagMatrix blk order with
+      | .ok phi => kcTrace phi (phi.length - 1)
+      | .error _ => []
+    pure <| Json.mkObj [("model", filtJson res), ("spec_model", specM), ("spec_impl", specI),
+      ("trace", Json.arr tr)]
+  | _ => throw s!"C10: unknown entry {entry}"
 
 end ALV.Driver.C10
